@@ -65,7 +65,11 @@ func genC37(tier string, seed uint64, idx int) *simkit.Plan {
 		case x < 75:
 			p.Add(simkit.St("adv", rng.Uint64(), "sec", rng.Range(1, 100)))
 		default:
-			p.Add(simkit.St("backup", rng.Uint64(), "during", rng.Intn(3), "dkey", 1+rng.Intn(keys)))
+			during := rng.Intn(3)
+			if big {
+				during = 0 // (megabyte increments and writes landing inside the open stream are explored in separate runs)
+			}
+			p.Add(simkit.St("backup", rng.Uint64(), "during", during, "dkey", 1+rng.Intn(keys)))
 		}
 	}
 	p.Add(simkit.St("backup", rng.Uint64(), "during", 0))
